@@ -1,7 +1,8 @@
 /-
   C13 — subscribers get each emitted event exactly once, in order, only while subscribed.
   Theorems about Model/Signals.lean (one connection's view of a signal), for every
-  interleaving of subscribe / cancel / emit / server handling / dispatch / handler removal.
+  interleaving of subscribe / cancel / emit / server handling / dispatch / handler removal / failure of a
+  registration.
 -/
 import QiVerif.Model.Signals
 set_option linter.unusedSimpArgs false
@@ -42,7 +43,8 @@ structure SubWf (c : C) (s : Sub) : Prop where
   before : ∀ k idx p, k < s.joinLen → c.log[k]? = some (.event idx p) → idx < s.joinEmit
   since : ∀ a, s.since = some a → s.joinEmit ≤ a ∧ a ≤ c.emitted.length
   cancelled : ∀ e d, s.cancelAt = some (e, d) → e ≤ c.emitted.length ∧ d ≤ c.delivered ∧ (∀ l, s.leftAt = some l → d ≤ l)
-  left : ∀ l, s.leftAt = some l → l ≤ c.delivered ∧ s.joinPos ≤ l ∧ s.cancelAt.isSome = true
+  left : ∀ l, s.leftAt = some l → l ≤ c.delivered ∧ s.joinPos ≤ l ∧ (s.cancelAt.isSome = true ∨ s.failed = true)
+  failed : s.failed = true → s.counted = false
 
 structure Wf (c : C) : Prop where
   flags : c.unserialized = false ∧ c.twice = false
@@ -60,7 +62,7 @@ theorem subWf_mono (c c' : C) (s : Sub) (h : SubWf c s)
     (hlog : ∃ t, c'.log = c.log ++ t) (hem : c.emitted.length ≤ c'.emitted.length)
     (hd : c.delivered ≤ c'.delivered) : SubWf c' s := by
   obtain ⟨t, ht⟩ := hlog
-  refine ⟨⟨h.pos.1, by rw [ht]; simp; have := h.pos.2.1; omega, by have := h.pos.2.2.1; omega, by have := h.pos.2.2.2; omega⟩, ?_, ?_, ?_, ?_⟩
+  refine ⟨⟨h.pos.1, by rw [ht]; simp; have := h.pos.2.1; omega, by have := h.pos.2.2.1; omega, by have := h.pos.2.2.2; omega⟩, ?_, ?_, ?_, ?_, h.failed⟩
   · intro k idx p hk hget
     have hlt : k < c.log.length := by have := h.pos.2.1; omega
     rw [ht, List.getElem?_append_left hlt] at hget
@@ -75,7 +77,7 @@ theorem subWf_mono (c c' : C) (s : Sub) (h : SubWf c s)
 
 
 theorem subWf_got (c : C) (s : Sub) (g : List (Nat × Nat)) (h : SubWf c s) : SubWf c { s with got := g } :=
-  ⟨h.pos, h.before, h.since, h.cancelled, h.left⟩
+  ⟨h.pos, h.before, h.since, h.cancelled, h.left, h.failed⟩
 
 theorem events_single_nonevent (f : Frame) (h : ∀ i p, f ≠ .event i p) : events [f] = [] := by
   cases f <;> simp [events] at *
@@ -98,9 +100,9 @@ theorem wf_attach (c : C) (h : Wf c) : Wf (attach c) := by
   refine ⟨h.flags, h.deliv, h.sorted, h.genuine, ?_⟩
   intro s hs
   rcases List.mem_append.mp hs with hs | hs
-  · exact ⟨(h.subs s hs).pos, (h.subs s hs).before, (h.subs s hs).since, (h.subs s hs).cancelled, (h.subs s hs).left⟩
+  · exact ⟨(h.subs s hs).pos, (h.subs s hs).before, (h.subs s hs).since, (h.subs s hs).cancelled, (h.subs s hs).left, (h.subs s hs).failed⟩
   · simp at hs; subst hs
-    refine ⟨⟨h.deliv, Nat.le_refl _, Nat.le_refl _, Nat.le_refl _⟩, ?_, by simp, by simp, by simp⟩
+    refine ⟨⟨h.deliv, Nat.le_refl _, Nat.le_refl _, Nat.le_refl _⟩, ?_, by simp, by simp, by simp, by simp⟩
     intro k idx p hk hget
     have := h.genuine idx p (List.mem_of_getElem? hget)
     simp only
@@ -111,7 +113,7 @@ theorem wf_attach (c : C) (h : Wf c) : Wf (attach c) := by
 theorem wf_subs2 (c : C) (h : Wf c) (subs : List Sub) (hs : ∀ s ∈ subs, SubWf c s) (op : Option Op) (refs : Nat) :
     Wf { c with subs := subs, op := op, refs := refs } :=
   ⟨h.flags, h.deliv, h.sorted, h.genuine, fun s hm =>
-    ⟨(hs s hm).pos, (hs s hm).before, (hs s hm).since, (hs s hm).cancelled, (hs s hm).left⟩⟩
+    ⟨(hs s hm).pos, (hs s hm).before, (hs s hm).since, (hs s hm).cancelled, (hs s hm).left, (hs s hm).failed⟩⟩
 
 theorem wf_enter (c : C) (i : Nat) (h : Wf c) : Wf (enter c i) := by
   unfold enter
@@ -129,12 +131,12 @@ theorem wf_enter (c : C) (i : Nat) (h : Wf c) : Wf (enter c i) := by
             intro x hx
             rcases List.mem_or_eq_of_mem_set hx with hx | rfl
             · exact h.subs x hx
-            · exact ⟨hsw.pos, hsw.before, hsw.since, hsw.cancelled, hsw.left⟩) _ _
+            · exact ⟨hsw.pos, hsw.before, hsw.since, hsw.cancelled, hsw.left, by simp_all⟩) _ _
         · exact wf_subs2 c h _ (by
             intro x hx
             rcases List.mem_or_eq_of_mem_set hx with hx | rfl
             · exact h.subs x hx
-            · refine ⟨hsw.pos, hsw.before, ?_, hsw.cancelled, hsw.left⟩
+            · refine ⟨hsw.pos, hsw.before, ?_, hsw.cancelled, hsw.left, by simp_all⟩
               intro a ha; simp at ha; subst ha
               exact ⟨hsw.pos.2.2.2, Nat.le_refl _⟩) _ _
 
@@ -160,7 +162,7 @@ theorem wf_subs (c : C) (h : Wf c) (subs : List Sub) (d : Nat) (hd : c.delivered
     (hs : ∀ s ∈ subs, SubWf { c with delivered := d } s) (op : Option Op) (refs : Nat) :
     Wf { c with subs := subs, delivered := d, op := op, refs := refs } :=
   ⟨h.flags, hdl, h.sorted, h.genuine, fun s hm =>
-    ⟨(hs s hm).pos, (hs s hm).before, (hs s hm).since, (hs s hm).cancelled, (hs s hm).left⟩⟩
+    ⟨(hs s hm).pos, (hs s hm).before, (hs s hm).since, (hs s hm).cancelled, (hs s hm).left, (hs s hm).failed⟩⟩
 
 theorem subWf_deliv (c : C) (s : Sub) (h : SubWf c s) (d : Nat) (hd : c.delivered ≤ d) : SubWf { c with delivered := d } s :=
   subWf_mono c _ s h ⟨[], by simp⟩ (Nat.le_refl _) hd
@@ -198,7 +200,7 @@ theorem wf_deliver (c : C) (h : Wf c) : Wf (deliver c) := by
           rcases mem_setSub _ _ _ _ hs with hs | ⟨s0, hs0, rfl⟩
           · exact base s hs
           · have b := base s0 (List.mem_of_getElem? hs0)
-            refine ⟨b.pos, b.before, ?_, b.cancelled, b.left⟩
+            refine ⟨b.pos, b.before, ?_, b.cancelled, b.left, b.failed⟩
             intro a ha
             simp at ha; subst ha
             exact ⟨b.pos.2.2.2, Nat.le_refl _⟩) none c.refs
@@ -221,22 +223,26 @@ theorem wf_cancel (c : C) (i : Nat) (h : Wf c) : Wf (cancel c i) := by
       · exact h
       · rename_i hcond
         simp only [Bool.or_eq_true, not_or, Bool.not_eq_true, Option.isNone_eq_false_iff, Option.isSome_eq_false_iff] at hcond
-        obtain ⟨hcond, _⟩ := hcond
+        obtain ⟨hcond, hcnt⟩ := hcond
         have hsw := h.subs s (List.mem_of_getElem? hs)
+        have hnf : s.failed = false := by
+          cases hf : s.failed with
+          | false => rfl
+          | true => have := hsw.failed hf; simp [this] at hcnt
         have newOk : ∀ x ∈ c.subs.set i { s with cancelAt := some (c.emitted.length, c.delivered) }, SubWf { c with delivered := c.delivered } x := by
           intro x hx
           rcases List.mem_or_eq_of_mem_set hx with hx | rfl
           · exact h.subs x hx
-          · refine ⟨hsw.pos, hsw.before, hsw.since, ?_, ?_⟩
+          · refine ⟨hsw.pos, hsw.before, hsw.since, ?_, ?_, hsw.failed⟩
             · intro e d hc
               simp at hc; obtain ⟨rfl, rfl⟩ := hc
               refine ⟨Nat.le_refl _, Nat.le_refl _, ?_⟩
               intro l hl
               have := (hsw.left l hl).2.2
-              rw [Option.isNone_iff_eq_none.mp hcond.2] at this; cases this
+              rw [Option.isNone_iff_eq_none.mp hcond.2, hnf] at this; simp at this
             · intro l hl
-              have := hsw.left l hl
-              rw [Option.isNone_iff_eq_none.mp hcond.2] at this; simp at this
+              have := (hsw.left l hl).2.2
+              rw [Option.isNone_iff_eq_none.mp hcond.2, hnf] at this; simp at this
         split
         · exact wf_subs c h _ c.delivered (Nat.le_refl _) h.deliv newOk _ _
         · exact wf_subs c h _ c.delivered (Nat.le_refl _) h.deliv newOk _ _
@@ -258,13 +264,16 @@ theorem wf_leave (c : C) (i : Nat) (h : Wf c) : Wf (leave c i) := by
           intro x hx
           rcases List.mem_or_eq_of_mem_set hx with hx | rfl
           · exact h.subs x hx
-          · refine ⟨hsw.pos, hsw.before, hsw.since, ?_, ?_⟩
+          · refine ⟨hsw.pos, hsw.before, hsw.since, ?_, ?_, hsw.failed⟩
             · intro e d hc
               obtain ⟨h1, h2, _⟩ := hsw.cancelled e d hc
               refine ⟨h1, h2, ?_⟩
               intro l hl; simp at hl; subst hl; exact h2
             · intro l hl; simp at hl; subst hl
-              exact ⟨Nat.le_refl _, hsw.pos.2.2.1, hcond.1⟩) c.op c.refs
+              refine ⟨Nat.le_refl _, hsw.pos.2.2.1, ?_⟩
+              cases hc : s.cancelAt with
+              | some x => simp
+              | none => cases hf : s.failed <;> simp_all) c.op c.refs
 
 theorem wf_emit (c : C) (p : Nat) (h : Wf c) : Wf (emit c p) := by
   unfold emit
@@ -303,6 +312,22 @@ theorem wf_emit (c : C) (p : Nat) (h : Wf c) : Wf (emit c p) := by
     · intro s hs
       exact subWf_mono c _ s (h.subs s hs) ⟨[_], rfl⟩ (by simp) (Nat.le_refl _)
 
+theorem wf_regFail (c : C) (h : Wf c) : Wf (regFail c) := by
+  unfold regFail
+  split
+  · rename_i i hop
+    cases hs : c.subs[i]? with
+    | none => exact h
+    | some s0 =>
+      simp only
+      have hsw := h.subs s0 (List.mem_of_getElem? hs)
+      exact wf_subs2 c h _ (by
+        intro x hx
+        rcases List.mem_or_eq_of_mem_set hx with hx | rfl
+        · exact h.subs x hx
+        · exact ⟨hsw.pos, hsw.before, hsw.since, hsw.cancelled, fun l hl => ⟨(hsw.left l hl).1, (hsw.left l hl).2.1, Or.inr rfl⟩, fun _ => rfl⟩) _ _
+  · exact h
+
 theorem wf_step (c : C) (a : Action) (h : Wf c) : Wf (step c a) := by
   cases a with
   | attach => exact wf_attach c h
@@ -315,6 +340,7 @@ theorem wf_step (c : C) (a : Action) (h : Wf c) : Wf (step c a) := by
   | leave i => exact wf_leave c i h
   | emit p => exact wf_emit c p h
   | noise => exact wf_noise c h
+  | regFail => exact wf_regFail c h
 
 
 theorem wf_run (c : C) (as : List Action) (h : Wf c) : Wf (run c as) := by
@@ -401,6 +427,19 @@ theorem gotOk_step (c : C) (a : Action) (hw : Wf c) (h : GotOk c) : GotOk (step 
     · exact appendCase _ [.unregAck] rfl rfl rfl
     · exact h
   | noise => exact appendCase _ [.other] rfl rfl rfl
+  | regFail =>
+    simp only [step, regFail]
+    split
+    · rename_i i hop
+      cases hs : c.subs[i]? with
+      | none => exact h
+      | some s0 =>
+        simp only
+        intro x hx
+        rcases List.mem_or_eq_of_mem_set hx with hx | rfl
+        · exact h x hx
+        · exact h s0 (List.mem_of_getElem? hs)
+    · exact h
   | emit p =>
     simp only [step, emit]
     split
@@ -703,7 +742,10 @@ theorem reg_enter (c : C) (i : Nat) (hw : Wf c) (h : Reg c) : Reg (enter c i) :=
       cases hcn : s0.counted with
       | true => simpa using h
       | false =>
-        simp only [Bool.false_eq_true, if_false]
+       cases hfl : s0.failed with
+       | true => simpa using h
+       | false =>
+        simp only [Bool.or_self, Bool.false_eq_true, if_false]
         have ht := h.table; simp only [Table, hop] at ht
         have hlt := getElem?_lt _ _ _ hs
         have hm := List.mem_of_getElem? hs
@@ -778,6 +820,32 @@ theorem reg_step (c : C) (a : Action) (hw : Wf c) (h : Reg c) : Reg (step c a) :
   | noise =>
     have := reg_log_grow c h [.other] c.registered c.op (by simpa [Table] using h.table) h.pend
     simpa [step, noise] using this
+  | regFail =>
+    simp only [step, regFail]
+    split
+    · rename_i i hop
+      obtain ⟨s0, hs0, hsn, hca, hcn⟩ := h.pend i (Or.inl hop)
+      simp only [hs0]
+      have ht := h.table; simp only [Table, hop] at ht
+      refine ⟨by simp [Table, ht.2], ?_, ?_, ?_, ?_, ?_⟩
+      · show 0 = List.countP active (c.subs.set i _)
+        have := countP_set_off c.subs i s0 { s0 with counted := false, failed := true } hs0 (by simp [active, hcn, hca]) (by simp [active])
+        have hc := h.count
+        omega
+      · intro j hj; rcases hj with hj | hj <;> cases hj
+      · intro x hx
+        rcases List.mem_or_eq_of_mem_set hx with hx | rfl
+        · exact h.cnt x hx
+        · exact ⟨by simp [hsn], by simp [hca]⟩
+      · intro x hx a e d ha hc
+        rcases List.mem_or_eq_of_mem_set hx with hx | rfl
+        · exact h.order x hx a e d ha hc
+        · simp [hsn] at ha
+      · intro x hx a ha idx h1 h2
+        rcases List.mem_or_eq_of_mem_set hx with hx | rfl
+        · exact h.sent x hx a ha idx h1 h2
+        · simp [hsn] at ha
+    · exact h
   | srvRegister =>
     simp only [step, srvRegister]
     split
@@ -1029,7 +1097,12 @@ theorem window_complete (as : List Action) (s : Sub) (hs : s ∈ (run {} as).sub
     cases hl : s.leftAt with
     | none => simpa using hkd
     | some l =>
-      have hc := (hsw.left l hl).2.2
+      have hc : s.cancelAt.isSome = true := by
+        rcases (hsw.left l hl).2.2 with h | h
+        · exact h
+        · have h1 := hsw.failed h
+          have h2 := (hi.reg.cnt s hs).1 (by rw [ha]; rfl)
+          rw [h1] at h2; cases h2
       obtain ⟨ed, hed⟩ := Option.isSome_iff_exists.mp hc
       obtain ⟨e, d⟩ := ed
       have := (hsw.cancelled e d hed).2.2 l hl
@@ -1088,6 +1161,7 @@ theorem nothing_after_close (c : C) (hi : Inv c) (a : Action) (s : Sub) (hs : s 
   | srvRegister => simp only [step, srvRegister]; split; exact ⟨_, rfl⟩; exact ⟨[], by simp⟩
   | srvUnregister => simp only [step, srvUnregister]; split; exact ⟨_, rfl⟩; exact ⟨[], by simp⟩
   | noise => exact ⟨_, rfl⟩
+  | regFail => simp only [step, regFail]; split; (split <;> exact ⟨[], by simp⟩); exact ⟨[], by simp⟩
   | emit p => simp only [step, emit]; split; (split <;> exact ⟨_, rfl⟩); exact ⟨[], by simp⟩
   | leave i => simp only [step, leave]; split; (split; exact ⟨[], by simp⟩; split <;> exact ⟨[], by simp⟩); exact ⟨[], by simp⟩
   | cancel i =>
@@ -1176,6 +1250,58 @@ theorem add_keeps_all (us us' : List User) (u : User) (h : addUser us u = some u
   unfold addUser at h; split at h
   · cases h
   · injection h with h; exact h.symm
+
+/-! ### a registration that fails -/
+
+/-- **A failed registration is given back.**  When `RegisterEvent` fails for the first subscriber, the count is what it
+    was before the attempt, the lock is free, nobody is in the count, the server holds no registration — whatever
+    happened on the connection meanwhile — and the one that failed is never acknowledged -/
+theorem failed_registration_gives_back (as : List Action) (i : Nat) (hop : (run {} as).op = some (.regPending i)) :
+    let c := regFail (run {} as)
+    c.refs = 0 ∧ c.op = none ∧ c.registered = false ∧ c.subs.countP active = 0 ∧
+      ∃ s, c.subs[i]? = some s ∧ s.failed = true ∧ s.since = none ∧ s.counted = false := by
+  have hi := inv_run {} as inv_init
+  have hi' : Inv (regFail (run {} as)) := inv_step _ .regFail hi
+  obtain ⟨s0, hs0, hsn, hca, hcn⟩ := hi.reg.pend i (Or.inl hop)
+  have hlt : i < (run {} as).subs.length := by
+    rcases Nat.lt_or_ge i (run {} as).subs.length with h | h
+    · exact h
+    · rw [List.getElem?_eq_none h] at hs0; cases hs0
+  have hr : regFail (run {} as) = { run {} as with refs := 0, op := none, subs := (run {} as).subs.set i { s0 with counted := false, failed := true } } := by
+    simp only [regFail, hop, hs0]
+  have ht := hi'.reg.table
+  have hc := hi'.reg.count
+  simp only
+  rw [hr] at ht hc ⊢
+  simp only [Table] at ht
+  refine ⟨rfl, rfl, by simpa using ht, by simpa using hc.symm, _, List.getElem?_set_self hlt, rfl, hsn, rfl⟩
+
+/-- the next subscriber registers with the server again: it is not taken for a second subscriber of a registration
+    that does not exist -/
+theorem subscriber_after_a_failure_registers (as : List Action) (i : Nat) (hop : (run {} as).op = some (.regPending i)) :
+    (subscribe (regFail (run {} as))).op = some (.regPending (run {} as).subs.length) ∧
+      (subscribe (regFail (run {} as))).refs = 1 := by
+  have hi := inv_run {} as inv_init
+  obtain ⟨s0, hs0, hsn, hca, hcn⟩ := hi.reg.pend i (Or.inl hop)
+  have hser : (run {} as).unserialized = false := hi.wf.flags.1
+  simp [subscribe, regFail, hop, hs0, attach, enter, hser]
+
+/-- a subscriber whose registration failed is never acknowledged afterwards, on any schedule -/
+theorem failed_never_acknowledged (as : List Action) (s : Sub) (hs : s ∈ (run {} as).subs) (hf : s.failed = true) :
+    s.since = none ∧ s.counted = false := by
+  have hi := inv_run {} as inv_init
+  have hc := (hi.wf.subs s hs).failed hf
+  refine ⟨?_, hc⟩
+  cases hsn : s.since with
+  | none => rfl
+  | some a => have := (hi.reg.cnt s hs).1 (by rw [hsn]; rfl); rw [hc] at this; cases this
+
+/-- the first registration fails (the events emitted meanwhile are not for anybody), the second subscriber registers
+    and gets every event from its acknowledgement on -/
+example :
+    let c := run {} [.subscribe, .emit 10, .regFail, .leave 0, .subscribe, .srvRegister, .deliver, .emit 11, .deliver]
+    (c.subs.map (fun s => (s.failed, s.since, s.got)), c.refs, c.registered) =
+      ([(true, none, []), (false, some 1, [(1, 11)])], 1, true) := by decide
 
 /-! ### non-vacuity, and what the repairs were needed for -/
 
